@@ -301,6 +301,23 @@ def structure_aware(rng, spec):
                 r["blocks"][0] = rq.rlp_encode([b"\x01"] * 18 + [rq_raw(bytes.fromhex(
                     deep_rlp(d)))]).hex()
                 yield "leaf:%s:blk-deep-field-%d" % (cmd[:7], d), v1, r
+        # one field of a 19-field header nested d levels, for every d (step 7, shifted per
+        # seed) up to 1500 and in three positions: what decodes may still be too deep to
+        # re-encode, hash or walk
+        for cmd in ("advanceBlockchain", "updateAncestorBlock"):
+            for d in range(1 + spec["seed"] % 7, 1500, 7):
+                for pos in (0, 5, 16):
+                    fields = [b"\x01"] * 19
+                    fields[pos] = rq_raw(bytes.fromhex(deep_rlp(d)))
+                    r = copy.deepcopy(b[cmd])
+                    r["blocks"][0] = rq.rlp_encode(fields).hex()
+                    yield "leaf:%s:blk-field%d-nested-sweep" % (cmd[:7], pos), v1, r
+                if cmd == "advanceBlockchain" and d % 21 < 7:
+                    fields = [b"\x01"] * 19
+                    fields[5] = rq_raw(bytes.fromhex(deep_rlp(d)))
+                    r = copy.deepcopy(b[cmd])
+                    r["brothers"][0] = [rq.rlp_encode(fields).hex()]
+                    yield "leaf:advance:bro-field-nested-sweep", v1, r
         for cmd in ("advanceBlockchain", "updateAncestorBlock"):
             for lab, blk in [("blk-nothex", "zz"), ("blk-odd", "abc"), ("blk-empty", ""),
                              ("blk-not-rlp", "aabbcc"), ("blk-rlp-string", "83aabbcc"),
